@@ -19,6 +19,7 @@ it raises `ClientDisconnected` at their end (declared Content-Length not reached
 -/
 import WzVerif.Model.RequestAttrs
 import WzVerif.Gen.RequestGlue
+import WzVerif.Model.Multipart
 namespace Wz.Req
 open Wz Wz.Http
 
@@ -60,6 +61,24 @@ structure BodyExt where
   mp : Bytes → BodyCfg → Wire → Except String FormResult
   /-- `json.loads(data)`: only whether, and with what, it raises -/
   jl : Bytes → Except String Unit
+
+/-! the multipart branch instantiated with C01/C02/C10's model -/
+
+/-- `MultiPartParser.parse` as modelled by C01/C02/C10 (Model/Multipart.lean), on what the limited
+stream delivers; a stream that ends early raises `ClientDisconnected` instead of delivering EOF -/
+def mpModel (bnd : Bytes) (cfg : BodyCfg) (w : Wire) : Except String FormResult :=
+  let conv (fields : List (Option Str × Str)) (files : List Wz.Multipart.FileItem) : FormResult :=
+    { fields := fields, files := files.map fun f => (f.name, f.filename, f.content) }
+  if w.disc then
+    let chunks := Wz.Multipart.readChunks 65536 w.body.length [] w.body
+    match Wz.Multipart.formLoop cfg.maxFormMemorySize
+        (Wz.Multipart.mkDecoder bnd cfg.maxFormMemorySize cfg.maxFormParts) {} (chunks.map some) with
+    | .error e => .error e
+    | .ok _ => .error "ClientDisconnected"
+  else
+    match Wz.Multipart.formParse bnd cfg.maxFormMemorySize cfg.maxFormParts 65536 [] w.body with
+    | .error e => .error e
+    | .ok (fields, files) => .ok (conv fields files)
 
 /-- `str.encode("ascii")` -/
 def asciiEnc (s : Str) : Except String Bytes :=
